@@ -65,7 +65,8 @@ unknown_names = st.one_of(
 ).filter(lambda n: n not in KNOWN)
 body_lines = st.one_of(
     st.sampled_from(["{", " }", "}}", "[Song]", "  0 = N 0 0", "  0 = B 1", "  Resolution = 1",
-                     "", "  ", "[ExpertSingle]", "  0 = E \"x\"", "garbage"]),
+                     "", "  ", "[ExpertSingle]", "  0 = E \"x\"", "garbage", "\x1a", "garbage \x1a more", "\x00",
+                     "} // x", "  }", "}\x1a", "// }", "# }", "{ }"]),
     st.text(alphabet=name_chars, max_size=20),
 ).filter(lambda s: s != "}")
 
